@@ -208,6 +208,14 @@ def check_newmark(sysname, M, B, K, h, fname, icname, rfname, nlname, tier, res)
                 msgs.append("SolveNewmark z['%s'] (nonlinear function outputs) differs from the documented evaluation" % key)
     if not np.array_equal(sol.t, h * np.arange(F.shape[1])):
         msgs.append("SolveNewmark time vector wrong")
+    try:
+        with warnings.catch_warnings():
+            warnings.simplefilter("ignore")
+            again = ts.tsolve(F.copy(), d0=d0, v0=v0)
+        if not all(np.array_equal(getattr(again, nm), getattr(sol, nm)) for nm in "dva"):
+            msgs.append("SolveNewmark instance reused for a second identical tsolve gives a different answer")
+    except Exception as e:  # noqa
+        msgs.append("SolveNewmark reuse raised %r" % (e,))
     return msgs, True
 
 
@@ -343,6 +351,20 @@ def check_cdf(layout, m, B, k, rf, h, order, fname, icname, tier, res):
             res.err("cdf_vs_transcription_over_tol", e / tolc)
             if not e <= tolc:
                 msgs.append("%s %s differs from the documented coupled-damping-force recurrence: rel err %.3g" % (tag, nm, e))
+    # a solver object is reusable: a second solve on the same instance equals a solve on a fresh instance
+    d0b = np.array([0.03, -0.01, 0.02])
+    v0b = np.array([0.4, -0.6, 0.1])
+    try:
+        with warnings.catch_warnings():
+            warnings.simplefilter("ignore")
+            used = ode.SolveCDF(m, B, k, h, rf=rf if rf else None, order=order)
+            used.tsolve(F.copy(), d0=d0, v0=v0, static_ic=static)
+            again = used.tsolve(F[:, ::-1].copy(), d0=d0b, v0=v0b)
+            fresh = ode.SolveCDF(m, B, k, h, rf=rf if rf else None, order=order).tsolve(F[:, ::-1].copy(), d0=d0b, v0=v0b)
+        if not all(np.array_equal(getattr(again, nm), getattr(fresh, nm)) for nm in "dva"):
+            msgs.append("SolveCDF instance reused for a second tsolve gives a different answer than a fresh instance")
+    except Exception as e:  # noqa
+        msgs.append("SolveCDF reuse raised %r" % (e,))
     if len(sols) == 2:
         a_, b_ = sols["SolveCDF"], sols["SolveUnc(cd_as_force)"]
         if not (np.array_equal(a_.d, b_.d) and np.array_equal(a_.v, b_.v) and np.array_equal(a_.a, b_.a)):
